@@ -69,3 +69,20 @@ func init() {
 			New: "\t\t\terr = d.fetch()\n", Rule: "STALE-1"},
 	)
 }
+
+func init() {
+	addMutants(
+		// ---- C20: CYCLE-1
+		Mutant{ID: "cycle1-revert-F2", Props: []string{"C20"}, File: "arshal_default.go", Func: "makePointerArshaler",
+			Old: " || (mayRecurseWithoutDepth && !va.IsNil())", New: " || (mayRecurseWithoutDepth && !va.IsNil() && xe.Tokens.Depth() > 2)", Rule: "CYCLE-1"},
+		Mutant{ID: "cycle1-drop-defer-leavePointer", Props: []string{"C20", "C18"}, File: "arshal_default.go", Func: "makeSliceArshaler",
+			Old: "\t\t\tdefer leavePointer(&xe.SeenPointers, va.Value)\n", New: "", Rule: "CYCLE-1"},
+		Mutant{ID: "cycle1-slice-dispatch-before-begin", Props: []string{"C20"}, File: "arshal_default.go", Func: "makeSliceArshaler",
+			Old: "\t\tif err := enc.WriteToken(jsontext.BeginArray); err != nil {\n\t\t\treturn err\n\t\t}\n\t\tmarshal := valFncs.marshal",
+			New: "\t\tif n == 1 && !mo.Flags.Get(jsonflags.Deterministic) && mo.Flags.Get(jsonflags.FormatNilSliceAsNull) {\n\t\t\treturn valFncs.marshal(enc, addressableValue{va.Index(0), false}, mo)\n\t\t}\n\t\tif err := enc.WriteToken(jsontext.BeginArray); err != nil {\n\t\t\treturn err\n\t\t}\n\t\tmarshal := valFncs.marshal", Rule: "CYCLE-1"},
+		Mutant{ID: "cycle1-guard-covers-only-pointer", Props: []string{"C20"}, File: "arshal_default.go", Func: "makePointerArshaler",
+			Old: "mayRecurseWithoutDepth := t.Elem().Kind() == reflect.Pointer || t.Elem().Kind() == reflect.Interface", New: "mayRecurseWithoutDepth := t.Elem().Kind() == reflect.Pointer", Rule: "CYCLE-1"},
+		Mutant{ID: "cycle1-constant-above-limit", Props: []string{"C20"}, File: "arshal_default.go",
+			Old: "const startDetectingCyclesAfter = 1000", New: "const startDetectingCyclesAfter = 100000", Rule: "CYCLE-1"},
+	)
+}
